@@ -1,7 +1,7 @@
 from common import WORLD_TB, WORLD_ASSUME, SCEN_RULE
 
 PROP = {
-    "suites": ["scn-crash", "scn-crashx", "scn-struct", "c11"],
+    "suites": ["scn-crash", "scn-crashx", "scn-faultx", "scn-struct", "c11"],
     "lean_modules": ["Lc.Props.C11"],
     "leanchecker": True,
     "trusted_base": WORLD_TB + [
@@ -13,7 +13,7 @@ PROP = {
         "rename(2) replaces the target atomically (the model's Fs.rename is one step); a crash is a stop between two file-system operations of the process, not a power loss with reordered writes",
         "layer names are white-space-free tokens (isLegalLayerName admits letters, digits, '_' and '-')",
     ],
-    "rule": SCEN_RULE + " C11 oracle (scenarios): after a step interrupted at a crash index every layerconfig on disk equals its previous or its new complete content and no layer directory has lost its layerconfig. Suite c11: structured stream = layerconfig texts built from a grammar (base/import/export lines in any number and order, blanks/tabs/Unicode blanks as separators, CRLF, comments, blank lines, extra fields, unusual mount types, paths with .., //, trailing slashes, $$self/$$base prefixes, non-ASCII and invalid UTF-8, lines that must produce a message); malformed stream = byte mutations/truncations of such texts. Oracle: if the implementation's first read logged no message, its second read (of what WriteLayerfile wrote) has the same base, imports and exports in the same order and no message. A case is trivial when the text defines no base, import or export.",
+    "rule": SCEN_RULE + " C11 oracle (scenarios): after a step interrupted at a crash index every layerconfig on disk equals its previous or its new complete content and no layer directory has lost its layerconfig; after an undisturbed successful add/rename/rebase every layerconfig that loaded cleanly before still loads cleanly with the same imports and exports in the same order and the same parent apart from the intended change (judged with the proved reader on the implementation's bytes), and the file add writes carries the parent's imports/exports and the requested parent. scn-crashx includes a rebase onto a long-named parent interrupted at every index followed by a shorter rewrite. Suite c11: structured stream = layerconfig texts built from a grammar (base/import/export lines in any number and order, blanks/tabs/Unicode blanks as separators, CRLF, comments, blank lines, extra fields, unusual mount types, paths with .., //, trailing slashes, $$self/$$base prefixes, non-ASCII and invalid UTF-8, lines that must produce a message); malformed stream = byte mutations/truncations of such texts. Oracle: if the implementation's first read logged no message, its second read (of what WriteLayerfile wrote) has the same base, imports and exports in the same order and no message. A case is trivial when the text defines no base, import or export.",
 }
 
 META = {
